@@ -3,27 +3,35 @@
 (*  cmprow   row i of the full matrix cmp(vals[i], vals[j]) recorded from the real code over a  *)
 (*           concrete universe (file MAT_FILE: [vals, M]); the axioms are checked for row i     *)
 (*           against all j (pairs) and all j, k (triples)                                       *)
-(*  sort     sort(xs) / sorted(xs, key = Cmp): result, and the real cmp of adjacent results     *)
+(*  sort     sort(xs) / sorted(xs, key = Cmp): result, the real cmp of adjacent results (adj)   *)
+(*           and of every pair i < j of the result (far: <<i, j, cmp>>; short lists only)        *)
 (*  dsort    d.sort(by...) or d.sort(f): rows carry a unique id; per adjacent pair of result rows *)
-(*           the real cmp of each key column; whether sorting the result again changes it       *)
+(*           the real cmp of each key column (keycols names them); whether sorting the result    *)
+(*           again changes it                                                                    *)
 (*  dsortval d.sort(col = [values in order], ...): fully pinned, recomputed here                  *)
-EXTENDS Order, Batch
+(* Numbers beyond TLC's integers arrive as exact binary expansions (OrderBig, tag "x").          *)
+EXTENDS OrderBig, Batch
 
-Mat == JsonDeserialize(IOEnv.MAT_FILE)
+Mat  == JsonDeserialize(IOEnv.MAT_FILE)
+Mat2 == JsonDeserialize(IOEnv.MAT2_FILE)      \* a second, small matrix (ints no double can hold), rows carry mat = 2
 Pick(S) == CHOOSE e \in S : TRUE
 Show2(name, w) == name \o ":" \o ToString(w[1]) \o "," \o ToString(w[2])
 
-RowVerdict(i) ==
-    LET vals == Mat.vals  M == Mat.M
-        raised == {w \in RaisedAt(vals, M) : w[1] = i}
-        anti   == {w \in NotAntisym(vals, M) : w[1] = i}
-        pinned == {w \in NotPinned(vals, M) : w[1] = i}
+RowVerdictOf(mat, i) ==
+    LET vals == mat.vals  M == mat.M
+        raised == RaisedRow(vals, M, i)
+        anti   == NotAntisymRow(vals, M, i)
+        pinned == NotPinnedRow(vals, M, i)
+        pinbig == NotPinnedBigRow(vals, M, i)
         trans  == NotTransRow(vals, M, i)
-    IN  IF raised # {} THEN Show2("cmp_raises", Pick(raised))
+    IN  IF ~XAllWellFormed(vals[i]) THEN Show2("x_malformed", <<i, i>>)
+        ELSE IF raised # {} THEN Show2("cmp_raises", Pick(raised))
         ELSE IF anti # {} THEN Show2("cmp_not_antisymmetric", Pick(anti))
         ELSE IF pinned # {} THEN Show2("cmp_pinned_value", Pick(pinned))
+        ELSE IF pinbig # {} THEN Show2("cmp_pinned_big", Pick(pinbig))
         ELSE IF trans # {} THEN Show2("cmp_not_transitive", Pick(trans))
         ELSE ""
+RowVerdict(o) == IF "mat" \in DOMAIN o /\ o.mat = 2 THEN RowVerdictOf(Mat2, o.i) ELSE RowVerdictOf(Mat, o.i)
 
 \* lexicographic sign of a sequence of per-column comparisons
 RECURSIVE Lex(_, _)
@@ -31,24 +39,33 @@ Lex(cs, k) == IF k > Len(cs) THEN 0 ELSE IF cs[k] # 0 THEN cs[k] ELSE Lex(cs, k 
 RowsPerm(rows, out) == Len(rows) = Len(out) /\ {rows[i] : i \in 1..Len(rows)} = {out[i] : i \in 1..Len(out)}
 
 \* dictionary lookup of the explicit value orders: listed values by position, unlisted last
-Rank(v, vs) == IF \E i \in 1..Len(vs) : SameForSet(v, vs[i])
-               THEN CHOOSE i \in 1..Len(vs) : SameForSet(v, vs[i]) /\ \A j \in 1..(i - 1) : ~SameForSet(v, vs[j])
+Rank(v, vs) == IF \E i \in 1..Len(vs) : SameForSetX(v, vs[i])
+               THEN CHOOSE i \in 1..Len(vs) : SameForSetX(v, vs[i]) /\ \A j \in 1..(i - 1) : ~SameForSetX(v, vs[j])
                ELSE Len(vs) + 1
 RankCmp(orders, r, s) == Lex([k \in 1..Len(orders) |-> Sign(Rank(r[orders[k][1]], orders[k][2]) - Rank(s[orders[k][1]], orders[k][2]))], 1)
 
+\* dictable.sort on key columns: the rows are ordered by cmp, column after column, ties keeping the original
+\* order - or by cmp refined with the exact numeric order where cmp ties two different numbers (OrderBig)
+DsortCmp(o)     == o.colcmp
+DsortRefined(o) == [p \in 1..Len(o.colcmp) |-> [k \in 1..Len(o.colcmp[p]) |->
+                      RefinedCmp(o.colcmp[p][k], o.out[p][o.keycols[k]], o.out[p + 1][o.keycols[k]])]]
+OrderedBy(cc)   == \A p \in 1..Len(cc) : Lex(cc[p], 1) \in {-1, 0}
+StableBy(o, cc) == \A p \in 1..Len(cc) : Lex(cc[p], 1) = 0 => Pay(o.out[p].id) < Pay(o.out[p + 1].id)
+
 Verdict(o) ==
-    CASE o.kind = "cmprow" -> RowVerdict(o.i)
+    CASE o.kind = "cmprow" -> RowVerdict(o)
       [] o.kind = "sort" ->
            IF o.raised # "" THEN "sort_raises"
            ELSE IF ~IsPerm(o.xs, o.out) THEN "sort_not_a_permutation"
            ELSE IF \E k \in 1..Len(o.adj) : o.adj[k] \notin {-1, 0} THEN "sort_not_nondecreasing"
+           ELSE IF \E k \in 1..Len(o.far) : o.far[k][3] \notin {-1, 0} THEN "sort_not_nondecreasing_far"
            ELSE ""
       [] o.kind = "dsort" ->
            IF o.raised # "" THEN "dsort_raises"
            ELSE IF o.after # o.rows THEN "dsort_operand_changed"
            ELSE IF ~RowsPerm(o.rows, o.out) THEN "dsort_not_a_permutation"
-           ELSE IF \E p \in 1..Len(o.colcmp) : Lex(o.colcmp[p], 1) \notin {-1, 0} THEN "dsort_not_ordered"
-           ELSE IF \E p \in 1..Len(o.colcmp) : Lex(o.colcmp[p], 1) = 0 /\ ~(Pay(o.out[p].id) < Pay(o.out[p + 1].id)) THEN "dsort_not_stable"
+           ELSE IF ~OrderedBy(DsortCmp(o)) /\ ~OrderedBy(DsortRefined(o)) THEN "dsort_not_ordered"
+           ELSE IF ~(OrderedBy(DsortCmp(o)) /\ StableBy(o, DsortCmp(o))) /\ ~(OrderedBy(DsortRefined(o)) /\ StableBy(o, DsortRefined(o))) THEN "dsort_not_stable"
            ELSE IF ~o.again THEN "dsort_not_idempotent"
            ELSE ""
       [] o.kind = "dsortval" ->
